@@ -82,6 +82,9 @@ static void model_case_impl(Case& c, int l0pass, std::vector<std::string>* snaps
     config.natural_scale = 1; config.natural_kappa = 0; config.anthro_kernel_type = "cauchy"; config.anthro_scale = 1;
     config.anthro_direction = "none"; config.use_anthropogenic_kernel = false; config.dispersal_percentage = 0.9;
     config.dispersal_stochasticity = true;
+    // for one host both arrival behaviours are documented to give identical results
+    bool land = rng.coin(30); if (land) config.set_arrival_behavior("land");
+    stats.add(land ? "arrival_land" : "arrival_infect");
     config.use_lethal_temperature = rng.coin(40); config.lethal_temperature = -5; config.lethal_temperature_month = rng.in(1, 12);
     config.use_survival_rate = rng.coin(40); config.survival_rate_month = rng.in(1, 12); config.survival_rate_day = rng.in(1, 28);
     config.use_overpopulation_movements = rng.coin(35);
